@@ -97,21 +97,39 @@ PROPS["C15"] = {
     "assumptions": ["the data passed to Do is one fixed Args value (a type, a string, an int, a list)"],
 }
 
+_EXEC_NOTE = ("Trusted: Lean kernel, the executor model (validated by comparing complete call traces, results and disk contents with the "
+              "real ExecutePackage/ExecuteTarget run on recording generators), the harness's file type (real Assemble function, formatter "
+              "replaced by a deterministic stand-in that can be made to fail), os file-system semantics as modelled (MkdirAll, Create, ReadFile).")
 PROPS["C04"] = {
     "variants": ["v1", "v2"],
     "lean": ["Gengo.Props.C04"],
     "level": "proof",
-    "level_text": "TODO",
-    "level_note": "TODO",
+    "level_text": "Kernel-checked on the executor model, for every list of generators: a generator loop that runs through produces exactly the "
+                  "documented call sequence generator by generator (filter over the target-filtered order, Namers, PackageVars, PackageConsts, "
+                  "Init, one GenerateType per type passing both filters in canonical order, Finalize, Imports); hooks see the base naming "
+                  "systems plus the generator's own only; files accumulate contributions in generator order; empty, conflicting and "
+                  "unregistered file types are errors. The real executors of both modules are compared call by call with the model.",
+    "level_note": _EXEC_NOTE,
     "rule": "random configurations: 0..5 types, 1..3 targets with filters, 0..4 generators each with filters, nil/empty/new/overriding namer "
             "sets, 3 file names (shared files), file types (registered, empty, conflicting, unregistered), vars/consts/imports; every fifth "
             "with a failing hook. Non-trivial = a target with >= 2 generators; distinct = distinct configuration.",
-    "assumptions": [],
+    "assumptions": ["accessor calls (Name, Filename, FileType, Header) are not part of the compared protocol"],
 }
-PROPS["C13"] = dict(PROPS["C04"], lean=["Gengo.Props.C13"], rule="fault enumeration: for each base configuration every fault position is "
+PROPS["C13"] = dict(PROPS["C04"], lean=["Gengo.Props.C13"], level="proof",
+    level_text="Kernel-checked: ErrorTracker stickiness and prefix property for every failure schedule; executeBody fails exactly when a hook "
+               "fails; a hook or file-type error leaves every file of the disk untouched; the assembly loop attempts every file and a run over "
+               "several targets processes every target; an unformattable file is written unformatted and reported. Fault enumeration over the "
+               "real executors (every hook of every generator, every file creation/format step, target directory) is compared with the model "
+               "and judged by an independent oracle.",
+    rule="fault enumeration: for each base configuration every fault position is "
     "enumerated completely - each generator x {Init, each GenerateType call, Finalize}, each file x {creation blocked by a directory, formatting "
     "failure}, target directory blocked by a file - plus the fault-free run; per-target runs and the run over all targets are compared.")
-PROPS["C10"] = dict(PROPS["C04"], variants=["v1"], lean=["Gengo.Props.C10"], rule="generate with the real code, then verify against the "
+PROPS["C10"] = dict(PROPS["C04"], variants=["v1"], lean=["Gengo.Props.C10"],
+    level_text="Kernel-checked on the executor model with an explicit disk: in verify-only mode the result is ok iff every file the run would "
+               "write exists byte-identical, the error names exactly the files that are missing/different/unformattable, and directories and "
+               "files are left exactly as they were for any list of targets. The real Context.Verify path is compared with the model on "
+               "generate-then-perturb histories and judged by an oracle that uses a real generate run as reference.",
+    rule="generate with the real code, then verify against the "
     "on-disk copy after: no change, single-byte edits (first/middle/last position; thorough: every position of 20 files), truncation, extension, "
     "deletion, missing output directory, an extra unrelated file, two bad files at once.")
 
